@@ -228,6 +228,9 @@ def run(ctx) -> None:
                   "--tag-scope was given", loc=pvo_fn.loc(), witness={"command": "bumpver update --tag-scope branch"})
 
     tag_listing_rule(ctx, "R1")
+    # "the greatest tag": fetched first when fetching is on - the remote lookup that decides whether `fetch` runs (C10's rule)
+    from checks.c10 import remote_lookup_rule
+    remote_lookup_rule(ctx, "R1")
 
     # ---------------------------------------------------------------- R2
     gl = prog.function("cli.get_latest_vcs_version_tag")
